@@ -22,6 +22,7 @@ import (
 	"google.golang.org/protobuf/proto"
 	"google.golang.org/protobuf/types/known/structpb"
 	"k8s.io/apimachinery/pkg/apis/meta/v1/unstructured"
+	"k8s.io/apimachinery/pkg/runtime/schema"
 	"k8s.io/apimachinery/pkg/runtime"
 
 	fnv1 "github.com/crossplane/crossplane/apis/apiextensions/fn/proto/v1"
@@ -552,7 +553,16 @@ func (w *worker) run(i int, name string) {
 			"data": map[string]any{"xrkey": base64.StdEncoding.EncodeToString([]byte("xrval"))}})
 	}
 	world.MustSeed("user", xrk.XRObject("ex.org/v1", "XThing", "xr1", "comp", xrSpec))
-	env := xrk.NewXREnv(world, xrk.XRDTyped(xrd))
+	var env *xrk.XREnv
+	if i%3 == 2 {
+		// the XR controller's informer cache has not (yet) seen any composed resource: every read of
+		// a composed kind misses the cache and must fall back to the API server
+		cached := world.LaggingClient("xr", func(gk schema.GroupKind) (int64, bool) { return 1 << 40, gk.Group == "nop.ex.org" && gk.Kind != "EnvThing" })
+		env = xrk.NewXREnvSplit(world, xrk.XRDTyped(xrd), cached, world.Client("xr"))
+		c.Count("cases_composed_kinds_behind_cache", 1)
+	} else {
+		env = xrk.NewXREnv(world, xrk.XRDTyped(xrd))
+	}
 	defer env.CloseConns()
 
 	fail := func(key, what string, wit any) { c.Violate(key, name, what, wit) }
